@@ -147,6 +147,7 @@ func genC04(seed uint64, run int, tier string) Scenario {
 	}
 	sc.Ops = append(sc.Ops, OpSpec{Kind: "close"})
 	sc.Class = fmt.Sprintf("network/tree%d", len(parents))
+	sc.CutEnum = pickCutEnum(run, 8)
 
 	return sc
 }
@@ -198,6 +199,7 @@ func runC04(env *Env, s Scenario) {
 	}
 	out := env.K.Run(done, sc.Deadline(), Micro(sc.ReadDelayUS)*20+time.Millisecond)
 	env.Finish(out)
+	sc.noteCutBase(env, sr.Tr)
 	env.Context = func() string { return sr.Summary() + fmt.Sprintf("device log: %q\n", sr.Dev.Log) }
 	env.Res.Shape = fmt.Sprintf("%s start=%s def=%s ops=%d seg=%s lat=%s", sc.Class, sc.Dev.Start, sc.DefaultPriv, len(sc.Ops), sc.Net.SegMode, sc.Net.LatMode)
 	env.Res.Nontrivial = true
@@ -334,6 +336,7 @@ func init() {
 		Gen:    genC04,
 		New:    func() Scenario { return &Session{} },
 		Run:    runC04,
+		Expand: func(b Scenario, res *Result, tier string) []Scenario { return expandSessionCuts(b, res, tier, 150) },
 		Shrink: shrinkSession,
 	})
 }
